@@ -19,6 +19,7 @@ MISSED_FIRST = {  # id -> what was strengthened (hand-maintained)
     "C22d": "reported by C21 as it stood (txsubmission:message-differs under cuts); C22 itself missed it because no stack-1 message of the zoo exceeded one mux segment - one body in thirty-two is now 60..140 kB, so the real muxer sends the message in several segments",
     "C23d": "no workload ever dropped a pending send; in a quarter of the high-level sends the future is now polled once and dropped if still pending - either nothing reached the peer and the agent has not moved, or the message is on the wire and the agent is in the successor state",
     "C25d": "the responder saw one connection per peer id; a third of the runs now start with an earlier connection of the same peer id that negotiated another table and ended with or without its Disconnected notice reaching the behaviour before the new Connected",
+    "C09e": "Address::from_bytes only saw the addresses of (corrupted) real outputs and random slices of artefacts, never a pointer address whose varuint runs past the u64 range and is cut before its terminator; one generated address field per run now covers every header type with seeded continuation runs (0..17 bytes, 0xFF or random high-bit bytes), torn with or without terminator, truncated or over-long",
     "C12b": "histories ended at the refused update of the last period; they now continue (observations, signatures, restarts, further refused updates) on the exhausted key",
 }
 rows = []
